@@ -263,7 +263,7 @@ class GuardFlow:
             if tok in self.tok_elems:
                 return self.tok_elems[tok]
             if tok in self.tok_list:
-                return self.local_elems.get(self.tok_list[tok])
+                return self.local_elems.get(tok)
             return None
         if isinstance(e, ast.Call):
             d = dotted(e.func)
@@ -293,23 +293,7 @@ class GuardFlow:
         return st2
 
     def bind_loop_target(self, target, it, st, node):
-        el = self.elements(it, st)
-        if isinstance(target, ast.Name):
-            tok = self.fresh(target.id, target)
-            st.env[target.id] = tok
-            if el is not None and el.arity is None:
-                st.facts = st.facts | frozenset(_sub(f, {"$": tok}) for f in el.facts)
-        elif isinstance(target, ast.Tuple) and all(isinstance(x, ast.Name) for x in target.elts):
-            toks = [self.fresh(x.id, x) for x in target.elts]
-            for x, t in zip(target.elts, toks):
-                st.env[x.id] = t
-            if el is not None and el.arity == len(toks):
-                mapping = {f"${i}": t for i, t in enumerate(toks)}
-                st.facts = st.facts | frozenset(_sub(f, mapping) for f in el.facts)
-        else:
-            for n in ast.walk(target):
-                if isinstance(n, ast.Name):
-                    st.env[n.id] = self.fresh(n.id, n)
+        self._bind_with(target, self.elements(it, st), st)
 
     # ---- expressions -------------------------------------------------------------
     def ev(self, e, st):
@@ -365,20 +349,18 @@ class GuardFlow:
         if isinstance(e, ast.Call):
             self.on_call(e, st)
 
-    _TOK = re.compile(r"«[^@»]*@(\d+)\.[^»]*»")
+    _TOK = re.compile(r"«[^»]*»")
 
     def holds(self, fact, st):
-        if fact[0] == "sibling-within-limit":
-            # some size of the member this name belongs to was checked: the checked value is the object the name was read from, or a
-            # component of the same element tuple (bound by the same loop target)
-            m = self._TOK.match(fact[1]) or self._TOK.search(fact[1])
+        if fact[0] == "member-size-checked":
+            # a size of the member this name belongs to was checked on every path: the checked value is (an attribute of) the object the
+            # name was read from, or the name is a component of an element tuple one of whose sizes was checked
             for f in st.facts:
-                if f[0] != "within-limit":
-                    continue
-                t = self._TOK.match(f[1])
-                if t is None:
-                    continue
-                if t.group(0) in fact[1] or (m is not None and t.group(1) == m.group(1) and "↻" not in t.group(0) and t.group(0) != m.group(0)):
+                if f[0] == "within-limit":
+                    t = self._TOK.match(f[1]) or re.match(r"π:[^.\[]+", f[1])
+                    if t is not None and t.group(0) in fact[1]:
+                        return True
+                elif f[0] == "size-checked" and f[1] in fact[1]:
                     return True
             return False
         return fact in st.facts
@@ -394,16 +376,15 @@ class GuardFlow:
                                        {p: self.elements(a, st) for p, a in amap.items()}, {p: self.kind(a, st) for p, a in amap.items()}))
             else:
                 self.cur.calls.append((q, call, None, st.facts, {}, {}))
-        # list mutation (through any alias of the list value)
+        # list mutation, recorded per list VALUE (any alias of it)
         f = call.func
         if isinstance(f, ast.Attribute) and isinstance(f.value, ast.Name):
-            tok = st.env.get(f.value.id)
-            lname = self.tok_list.get(tok, f.value.id)
+            tok = st.env.get(f.value.id) or f"g:{f.value.id}"
             if f.attr == "append" and len(call.args) == 1:
-                self.cur.appends.setdefault(lname, []).append((call.args[0], st.copy()))
+                self.cur.appends.setdefault(tok, []).append((call.args[0], st.copy()))
                 self.tok_elems.pop(tok, None)
             elif f.attr in ("extend", "insert", "remove", "pop", "clear", "sort", "reverse", "__setitem__", "__iadd__"):
-                self.cur.bad_lists.add(lname)
+                self.cur.bad_lists.add(tok)
                 self.tok_elems.pop(tok, None)
         # a list handed to a helper of this module that appends to / rewrites its parameter
         if q is not None and amap:
@@ -413,7 +394,7 @@ class GuardFlow:
                     if tok in self.tok_list or tok in self.tok_elems:
                         summ = self.summary(q)
                         if summ is None or p in summ.get("mutates", ()):
-                            self.cur.bad_lists.add(self.tok_list.get(tok, a.id))
+                            self.cur.bad_lists.add(tok)
                             self.tok_elems.pop(tok, None)
 
     def kind(self, e, st):
@@ -455,7 +436,7 @@ class GuardFlow:
             bn_p = "basename" if "basename" in ps else (ps[3] if len(ps) > 3 else None)
             if amap is not None and fn_p in amap and bn_p in amap:
                 out.append((("not-skipped", self.canon(amap[fn_p], st), self.canon(amap[bn_p], st)), "dispatch", f"line {call.lineno}: member dispatch"))
-                out.append((("sibling-within-limit", self.canon(amap[fn_p], st)), "dispatch-size", f"line {call.lineno}: member dispatch"))
+                out.append((("member-size-checked", self.canon(amap[fn_p], st)), "dispatch-size", f"line {call.lineno}: member dispatch"))
             else:
                 out.append((("never", "dispatch-shape"), "dispatch", f"line {call.lineno}: member dispatch with unrecognised arguments"))
         return out
@@ -469,20 +450,24 @@ class GuardFlow:
             st.env[name] = self.canon(value, st)
             return
         tok = self.fresh(name, node)
-        st.env[name] = tok
         if value is None:
+            st.env[name] = tok
             return
+        # everything about the value is computed in the environment BEFORE the name is rebound (`xs = [x for x in xs if ...]`)
         if isinstance(value, (ast.Call, ast.Compare, ast.BoolOp)) or (isinstance(value, ast.UnaryOp) and isinstance(value.op, ast.Not)):
             self.boolvals[tok] = (value, st.copy())
         k = self.call_kind(value)
         if k:
             self.tok_kind[tok] = k
+        self.tok_list.pop(tok, None)
+        self.tok_elems.pop(tok, None)
         if (isinstance(value, ast.List) and not value.elts) or (isinstance(value, ast.Call) and dotted(value.func) == "list" and not value.args):
             self.tok_list[tok] = name
         else:
             el = self.elements(value, st)
             if el is not None:
                 self.tok_elems[tok] = el
+        st.env[name] = tok
 
     def assign(self, target, value, st, node):
         if isinstance(target, ast.Name):
@@ -501,8 +486,8 @@ class GuardFlow:
             while isinstance(base, (ast.Attribute, ast.Subscript)):
                 base = base.value
             if isinstance(base, ast.Name):
-                if isinstance(target, ast.Subscript):
-                    self.cur.bad_lists.add(base.id)
+                if st.env.get(base.id):
+                    self.cur.bad_lists.add(st.env[base.id])
                 st.env[base.id] = self.fresh(base.id, target, "~")
 
     def assigned_names(self, stmts):
@@ -558,9 +543,9 @@ class GuardFlow:
             return st
         if isinstance(s, ast.AugAssign):
             self.ev(s.value, st)
+            if isinstance(s.target, ast.Name) and st.env.get(s.target.id):
+                self.cur.bad_lists.add(st.env[s.target.id])          # `L += ...` extends the list value in place
             self.assign(s.target, None, st, s)
-            if isinstance(s.target, ast.Name):
-                self.cur.bad_lists.add(s.target.id)
             return st
         if isinstance(s, ast.Expr):
             self.ev(s.value, st)
@@ -668,22 +653,39 @@ class GuardFlow:
         return st
 
     def _bind_with(self, target, el, st):
+        """bind loop / comprehension targets to fresh values and instantiate the element facts of the iterable on them"""
         if isinstance(target, ast.Name):
-            tok = self.fresh(target.id, target)
-            st.env[target.id] = tok
-            if el is not None and el.arity is None:
-                st.facts = st.facts | frozenset(_sub(f, {"$": tok}) for f in el.facts)
+            toks = [self.fresh(target.id, target)]
+            st.env[target.id] = toks[0]
+            mapping = None
+            if el is not None:
+                mapping = {"$": toks[0]} if el.arity is None else {f"${i}": f"{toks[0]}[{i}]" for i in range(el.arity)}
         elif isinstance(target, (ast.Tuple, ast.List)) and all(isinstance(x, ast.Name) for x in target.elts):
             toks = [self.fresh(x.id, x) for x in target.elts]
             for x, t in zip(target.elts, toks):
                 st.env[x.id] = t
+            mapping = None
             if el is not None and el.arity == len(toks):
                 mapping = {f"${i}": t for i, t in enumerate(toks)}
-                st.facts = st.facts | frozenset(_sub(f, mapping) for f in el.facts)
+            elif el is not None and el.arity is None:
+                mapping = {f"$[{i}]": t for i, t in enumerate(toks)}
         else:
             for n in ast.walk(target):
                 if isinstance(n, ast.Name):
                     st.env[n.id] = self.fresh(n.id, n)
+            return
+        if mapping is None:
+            return
+        inst = set()
+        for f in el.facts:
+            g = _sub(f, mapping)
+            if "$" in "".join(g[1:]):
+                continue
+            inst.add(g)
+            if g[0] == "within-limit":
+                # a size of this element was checked: every component of the element belongs to a size-checked member
+                inst.update(("size-checked", t) for t in toks)
+        st.facts = st.facts | frozenset(inst)
 
     # ---- one function ------------------------------------------------------------------
     def analyse(self, q, entry=None):
@@ -714,27 +716,14 @@ class GuardFlow:
                     if k and p in env:
                         self.tok_kind.setdefault(env[p], k)
             self.block(f.body, St(env, facts))
-            # element facts of local lists built by append (flow-insensitive over the append sites)
-            stores = {}
-            for n in ast.walk(f):
-                if isinstance(n, ast.Name) and isinstance(n.ctx, ast.Store):
-                    stores[n.id] = stores.get(n.id, 0) + 1
-            inits = {}
-            for n in ast.walk(f):
-                if isinstance(n, (ast.Assign, ast.AnnAssign)):
-                    tg = n.targets if isinstance(n, ast.Assign) else [n.target]
-                    v = n.value
-                    if v is not None and ((isinstance(v, ast.List) and not v.elts) or (isinstance(v, ast.Call) and dotted(v.func) == "list" and not v.args)):
-                        for t in tg:
-                            if isinstance(t, ast.Name):
-                                inits[t.id] = inits.get(t.id, 0) + 1
+            # element facts of local lists built by append: per list value, flow-insensitive over all its append sites
             new = {}
-            for name, sites in res.appends.items():
-                if name in res.bad_lists or name in ps or inits.get(name, 0) != stores.get(name, 0) or not inits.get(name):
+            for tok, sites in res.appends.items():
+                if tok in res.bad_lists or tok not in self.tok_list:
                     continue
                 el = _meet_all([self.abstract(elt, st) for elt, st in sites])
                 if el is not None:
-                    new[name] = el
+                    new[tok] = el
             if new == self.local_elems:
                 break
             self.local_elems = new
@@ -780,7 +769,7 @@ class GuardFlow:
                 if vals:
                     elems = _meet_all([self.elements(v, st) for v, st in vals])
             out = {"bool": {True: keep(bool_t), False: keep(bool_f)}, "elems": elems, "generator": bool(res.yields),
-                   "mutates": (set(res.appends) | set(res.bad_lists)) & set(self.params(q))}
+                   "mutates": {p for p in self.params(q) if f"π:{q}:{p}" in res.appends or f"π:{q}:{p}" in res.bad_lists}}
         finally:
             self._in_progress.discard(q)
             self.cur, self.boolvals, self.tok_kind, self.tok_list, self.tok_elems, self.local_elems = saved
